@@ -261,6 +261,9 @@ Fixpoint prefix_bytes (p l : list bytes) : bool :=
 Definition c06_analysis (c : ecase) : option string :=
   let enh := n_enhanced (k_nlp c) in
   if negb (prefix_bytes (dedup [] (k_nlp_keywords c)) enh) then Some "keywords_first"
+  (* ... the keywords being the user's own words by the documented rule (every typed word that is neither a stop word nor an
+     action word, target nouns included), whatever the implementation recorded as its keyword list *)
+  else if negb (prefix_bytes (a_keywords (model_analysis c)) enh) then Some "keywords_first/own_words"
   else if negb (nodup_bytes enh) then Some "no_duplicates"
   else if negb (list_eqb bytes_eqb (k_nlp_sig c) (k_nlp_sig2 c)) then Some "same_analysis_twice"
   else None.
